@@ -81,9 +81,8 @@ def refSide (t : Bytes) (v4ok : Bool) : Option (List Nat) :=
 
 /-- position of the first "::" -/
 def findDouble : Bytes → Nat → Option Nat
-  | 58 :: 58 :: _, i => some i
-  | _ :: xs, i => findDouble xs (i + 1)
-  | [], _ => none
+  | a :: b :: rest, i => if a == 58 && b == 58 then some i else findDouble (b :: rest) (i + 1)
+  | _, _ => none
 
 def refParse6 (t : Bytes) : Option Addr :=
   match findDouble t 0 with
@@ -152,7 +151,7 @@ def docParse (t : Bytes) : Option (Addr × Nat) :=
     if !isV6 then
       let ps := splitAt 46 body
       if ps.length ≥ 2 ∧ ps.length ≤ 4 ∧ ps.getLast? = some [42] then
-        match refPartialQuad ((Bytes.ofString ".").intercalate ps.dropLast) with
+        match refPartialQuad (([46] : Bytes).intercalate ps.dropLast) with
         | some (k, lo) => some (mapped lo, 96 + 8 * k)
         | none => none
       else none
